@@ -39,6 +39,7 @@ struct Sim {
     requests: Vec<u64>,
     pending_prev: bool,
     att_seen: u64,
+    dropped_base: u64,
     cur_op: usize,
     /// tick at which each op was applied
     op_tick: Vec<u64>,
@@ -61,7 +62,7 @@ impl Sim {
         let args = ValidatedArgs { paths: paths.clone(), tcp_server_address: None, symlink_path: None, nodelay: true };
         let k = Kanata::new(&args).map_err(|e| format!("{e}"))?;
         let (tx, rx) = sync_channel::<ServerMessage>(chan_cap);
-        Ok(Sim { k, tx: Some(tx), rx, now: 0, outs: vec![], notes: vec![], mapped, paths, attempts: vec![], requests: vec![], pending_prev: false, att_seen: kanata_state_machine::verif_seam::LIVE_RELOAD_ATTEMPTS.load(std::sync::atomic::Ordering::Relaxed), cur_op: 0, op_tick: vec![], gap_done: 0, attempt_pos: vec![], down_at_apply: vec![], unaware_at_apply: vec![], tick_err: None, last_in: usize::MAX })
+        Ok(Sim { k, tx: Some(tx), rx, now: 0, outs: vec![], notes: vec![], mapped, paths, attempts: vec![], requests: vec![], pending_prev: false, dropped_base: kanata_keyberon::layout::VERIF_CUSTOM_EVENTS_DROPPED.load(std::sync::atomic::Ordering::Relaxed), att_seen: kanata_state_machine::verif_seam::LIVE_RELOAD_ATTEMPTS.load(std::sync::atomic::Ordering::Relaxed), cur_op: 0, op_tick: vec![], gap_done: 0, attempt_pos: vec![], down_at_apply: vec![], unaware_at_apply: vec![], tick_err: None, last_in: usize::MAX })
     }
     fn down_now(&self) -> Vec<String> {
         let mut d = DownSet::default();
@@ -137,7 +138,10 @@ impl Sim {
                 // (this tick's key releases are emitted before the reload step of the same iteration)
                 let d = self.down_now();
                 // output kanata had no state for when it decided to reload (lost earlier)
-                self.unaware_at_apply.push(!aware_custom && d.iter().all(|k| !aware_keys.contains(k)));
+                // ... or whose custom release event keyberon dropped on the way (hook H5: one custom
+                // event per tick), possibly in this very iteration
+                let dropped = kanata_keyberon::layout::VERIF_CUSTOM_EVENTS_DROPPED.load(std::sync::atomic::Ordering::Relaxed) > self.dropped_base;
+                self.unaware_at_apply.push(!aware_custom && (dropped || d.iter().all(|k| !aware_keys.contains(k))));
                 self.down_at_apply.push(d);
                 if let Some(m) = parse_mapped(&self.paths[self.k.cur_cfg_idx]) {
                     self.mapped = m;
